@@ -245,16 +245,6 @@ def _unparse_JoinedStr(node: JoinedStr, qm: typing.Literal["'", '"']) -> unparse
             contents.append(s)
         elif isinstance(v, FormattedValue):
             field = yield PREC_FORMAT_EXPR_SLOT, v
-            if "\\" in field:
-                # the converted script should run on python 3.8+, where
-                # a replacement field can not include a back slash
-                raise SyntaxError("Back slash is included in a f-string expression")
-            if qm in field:
-                # ... nor the quotation mark of the f-string itself
-                # (it can not be escaped there, see above)
-                raise SyntaxError(
-                    "The quotation mark of a f-string is included in a f-string expression"
-                )
             contents.append(field)
     return "".join(contents)
 
@@ -266,6 +256,17 @@ def unparse_JoinedStr(node: JoinedStr, qm: typing.Literal["'", '"']) -> unparse_
 
 def unparse_FormattedValue(node: FormattedValue, qm) -> unparse_gen_t:
     value = yield PREC_FORMAT_EXPR_SLOT, node.value
+    if "\\" in value:
+        # the converted script should run on python 3.8+, where the expression
+        # of a replacement field can not include a back slash
+        # (the format spec can: it is a part of the string literal)
+        raise SyntaxError("Back slash is included in a f-string expression")
+    if qm in value:
+        # ... nor the quotation mark of the f-string itself
+        # (it can not be escaped there, see above)
+        raise SyntaxError(
+            "The quotation mark of a f-string is included in a f-string expression"
+        )
     format_spec = ""
     if node.format_spec is not None:
         assert isinstance(node.format_spec, JoinedStr)
